@@ -1238,9 +1238,9 @@ def filter_operator(A, C, B, Bf, BtBinv=None):
     # add explicit zeros to A wherever C is nonzero, but A is zero
     A = A.tocoo()
     C = C.tocoo()
-    A.data = np.hstack((np.zeros(C.data.shape, dtype=A.dtype), A.data))
-    A.row = np.hstack((C.row, A.row))
-    A.col = np.hstack((C.col, A.col))
+    A = coo_array((np.hstack((np.zeros(C.data.shape, dtype=A.dtype), A.data)),
+                   (np.hstack((C.row, A.row)), np.hstack((C.col, A.col)))),
+                  shape=A.shape)
     if isBSR:
         A = A.tobsr((rows_per_block, cols_per_block))
     else:
